@@ -327,7 +327,7 @@ for _nb, _tier, _to in ((4, "quick", 600), (5, "thorough", 3000)):
 
 # ------------------------------------------------------------------------------- encoder MTF / zero-run stage
 for _nb, _tier, _to in ((4, "quick", 600), (6, "thorough", 3000)):
-    add("mtf_n%d" % _nb, "h_mtf.c", "h_mtf", {"C01": _tier, "C02": _tier}, defines=["-DNB=%d" % _nb],
+    add("mtf_n%d" % _nb, "h_mtf.c", "h_mtf", {"C01": _tier, "C02": _tier}, defines=["-DNB=%d" % _nb], extra_src=["crctab.c"],
         cbmc=["--unwind", str(2 * _nb + 4), "--unwindset", "h_mtf.0:257,make_map_e.0:257,do_mtf.0:6,do_mtf.1:256,do_mtf.3:4"], backend="kissat", timeout=_to, mem_gb=8,
         functions=["src/encode.c:do_mtf", "src/encode.c:make_map_e"], witnesses=["zero_runs_shorten_the_sequence", "three_values_full_length"],
         bounds="every block-sorted column of 1..%d bytes over up to three byte values (7, 8, 200; which are in use is symbolic)" % _nb,
